@@ -2877,6 +2877,14 @@ impl SctpInner {
                 let msg = std::mem::take(&mut *buffer).freeze();
                 drop(buffer);
 
+                // The application already closed this channel and was told so
+                // (Close); data the peer sent before it learnt of the reset must
+                // not surface on it any more.
+                if dc.state.load(Ordering::SeqCst) == DataChannelState::Closed as usize {
+                    trace!("SCTP: dropping message for closed channel {}", stream_id);
+                    return Ok(());
+                }
+
                 // DCEP messages are sent unordered, so user data can overtake
                 // the DATA_CHANNEL_ACK of a channel we opened in-band. The
                 // peer has evidently accepted the channel: report Open first.
